@@ -858,6 +858,8 @@ class Notes:
                 if lf is not None:
                     lr = ctx.ev.summary(lf).ret_term()
                     ok = lr == ("attr", ("param", lf.params()[0]), "end_timestamp")
+            if m1 is not None and strip(m1["k"]) == ("call", ("ext", "operator.attrgetter"), (("const", "end_timestamp"),), ()):
+                ok = True  # operator.attrgetter("end_timestamp") is `lambda e: e.end_timestamp`
             m2 = match(("call", ("builtin", "max"), (("comp", ("?or", "gen", "list"), ("attr", H("b"), "end_timestamp"),
                                                       ((H("b"), NE, ()),)),), ()), v)
             ok = ok or m2 is not None
